@@ -1,11 +1,27 @@
-(* C17 — Create is deterministic and invariant under irrelevant variation (interim).
-   In the model, Create's output is BY CONSTRUCTION a function of the resolved paths, contents, slice
+(* C17 — Create is deterministic and invariant under irrelevant variation.
+   In the model, Create's output is by construction a function of the resolved paths, contents, slice
    size and block count: par2_create has no goroutine parameter and no hidden state, and uses the
-   current directory only to resolve spellings (abs_path). *)
-From Gopar Require Import Model.Base Model.CRC Model.GoPath Model.FS Model.Par2.
+   current directory only to resolve spellings (abs_path).  Goroutine independence of the coding
+   itself is Props/C12.v. *)
+From Coq Require Import Permutation.
+From Gopar Require Import Model.Base Model.CRC Model.GoPath Model.FS Model.Par2 Proofs.Par2Facts Proofs.Par2Create Proofs.CreatePerm.
 Open Scope N_scope.
 
-(* spellings of the same path resolve to the same absolute path: examples of every spelling class *)
+(* ORDER OF THE INPUT LIST: for any permutation of the (relative name, content) inputs with distinct
+   file ids, every output file is the same - index, volumes, every byte *)
+Theorem C17_order_independent : forall md5 parPath sz np (l1 l2 : list (bytes * bytes)),
+  Permutation l1 l2 ->
+  NoDup (map (fun nd => fi_id (data_file_info md5 sz (fst nd) (snd nd))) l1) ->
+  create_outputs md5 parPath sz np (map fst l1) (map snd l1) = create_outputs md5 parPath sz np (map fst l2) (map snd l2).
+Proof. intros. apply create_outputs_perm_gen; assumption. Qed.
+Print Assumptions C17_order_independent.
+
+(* the recovery set is the same sorted list for every permutation of the ids *)
+Theorem C17_recovery_set_canonical : forall l1 l2, Permutation l1 l2 -> sort_ids l1 = sort_ids l2.
+Proof. exact sort_ids_perm_eq. Qed.
+Print Assumptions C17_recovery_set_canonical.
+
+(* spellings of the same path resolve to the same absolute path: one example of every spelling class *)
 Theorem C17_spellings :
   let cwd := [47; 116; 47; 115] in                                   (* "/t/s" *)
   abs_path cwd [97] = [47; 116; 47; 115; 47; 97] /\                   (* a *)
